@@ -18,6 +18,8 @@ def dstr(rd):
     return datetime.date.fromordinal(rd).isoformat()
 
 
+SLOW = {"lat": 80.0, "lon": 15.0, "gmt": 1.0, "params": {"method": "Shafi"}}      # days with a year-long good-day search: very uneven block costs
+
 NATIVE = [(0, 0), (1, 0), (5, 0), (15, 0), (16, 1), (17, 1), (33, 2), (64, 1), (100, 3), (400, 20), (400, 0), (-3, 0), (31, 400)]
 
 
@@ -51,6 +53,18 @@ def native_equiv(rep, extra=(), repeat=1):
                           {"block_dates": len(rb.get("days") or {}), "sequential_dates": len(rs.get("days") or {})})
             return True
         n += 1
+    if extra:
+        # timing-dependent collectors (timeouts): blocks of very different cost - summer days at 80 N search a year for a good day
+        a, b = "2021-01-01", "2022-12-31"
+        blk = dict(SLOW, api="prayer_times_dt_rng_block", start=a, end=b, min_days=10)
+        seq = dict(SLOW, api="prayer_times_dt_rng", start=a, end=b)
+        rb = replay.run([blk], single_timeout=900)[0]
+        rs = replay.run([seq], single_timeout=900)[0]
+        if "days" in rb and "days" in rs and rb["days"] != rs["days"]:
+            rep.violation("parallel-differs", "prayer_times_dt_rng_block(%s..=%s at 80 N, min_days_for_pll 10) differs from the sequential API: %d vs %d dates "
+                          "(blocks of very uneven cost)" % (a, b, len(rb["days"]), len(rs["days"])), [blk, seq],
+                          {"block_dates": len(rb["days"]), "sequential_dates": len(rs["days"])})
+            return True
     rep.extra["native_block_vs_sequential"] = {"ranges": n, "host_parallelism": os.cpu_count()}
     return False
 
